@@ -1,0 +1,17 @@
+//go:build verif
+// +build verif
+
+// Contracts for package ast, read by /verif/engine (govc). Comment-only file: it adds no code.
+
+package ast
+
+//@ func (*PosImpl).Position
+//@ props C15 C17
+//@ requires x != nil
+//@ ensures result.Line == x.pos.Line && result.Column == x.pos.Column
+
+//@ func (*PosImpl).SetPosition
+//@ props C15 C17
+//@ requires x != nil
+//@ modifies x.pos
+//@ ensures x.pos.Line == pos.Line && x.pos.Column == pos.Column
